@@ -94,7 +94,7 @@ CFG = dict(
     drv_args=[TABLES],
     casesv=c13_casesv,
     case_tags=("E",),   # "L" lines (long inputs) are judged by the driver but never sampled into cases.v
-    rule=("the real TextHandler (colour off) behind logger.New: the empty string, every 1-byte string, hostile strings, all Unicode "
+    rule=("[half of the hand-built-record cases first warm the handler family up with records of the same instant / second / neighbouring second in the other zones; only the case record is judged] the real TextHandler (colour off) behind logger.New: the empty string, every 1-byte string, hostile strings, all Unicode "
           "spaces, non-printing runes and invalid UTF-8 forms each as message / key / value / group name / group key / With attribute / "
           "error, TextMarshaler, []byte, AnsiString, Stringer text and as the panic value of panicking MarshalText/Error methods (plus nil "
           "pointer receivers); 2-byte strings (quick: stride 23, thorough: all 65,536) and Unicode scalars (quick: all below U+3000 + plane "
